@@ -288,3 +288,60 @@ func init() {
 		Outside: "rank 5 (rank 4 only with sizes <= 2), sizes above 3, Pow exponents other than the listed ones when the base may be <= 0",
 	})
 }
+
+func init() {
+	allChecks = append(allChecks, &Check{
+		ID: "C07", Level: "model_checking",
+		Harnesses: []Harness{
+			{Name: "C07_explicit", Pkg: "zzh", Func: "H_C07_explicit", Reach: []string{"done"},
+				What: "x.Broadcast(target) for every valid target (new leading dims, size-1 expansion, both, factor 1): gradient = sum of the upstream over the copies",
+				Items: func(tier string) []Item {
+					if tier == "thorough" {
+						return mergeItems(rankItems(0, 3, 3, map[string]int64{"maxrank2": 3}), rankItems(0, 4, 2, map[string]int64{"maxrank2": 4}))
+					}
+					return rankItems(0, 2, 2, map[string]int64{"maxrank2": 3})
+				}},
+			{Name: "C07_implicit", Pkg: "zzh", Func: "H_C07_implicit", Reach: []string{"done"},
+				What:  "Add/Sub/Mul/Div with either operand expanded, every tracked subset",
+				Items: tiered(func() []Item { return sItems("op", []string{"Add", "Sub", "Mul", "Div"}, pairItems(0, 2, 2)) }, func() []Item { return sItems("op", []string{"Add", "Sub", "Mul", "Div"}, mergeItems(pairItems(0, 3, 2), pairItems(0, 2, 3))) })},
+			{Name: "C07_dot", Pkg: "zzh", Func: "H_C07_dot", Reach: []string{"done"},
+				What:  "Dot with leading dimensions of either operand expanded",
+				Items: tiered(func() []Item { return pairItemsLo(1, 2, 2) }, func() []Item { return mergeItems(pairItemsLo(1, 3, 2), pairItemsLo(1, 2, 3)) })},
+			{Name: "C07_matmul", Pkg: "zzh", Func: "H_C07_matmul", Reach: []string{"done"},
+				What:  "MatMul with batch dimensions of either operand expanded",
+				Items: tiered(func() []Item { return pairItemsLo(2, 3, 2) }, func() []Item { return mergeItems(pairItemsLo(2, 4, 2), pairItemsLo(2, 3, 3)) })},
+		},
+		Assumptions: []string{numericModel, "Div: divisor elements non-zero"},
+		Outside:     "target rank above 4, sizes above 3",
+	})
+}
+
+func init() {
+	lk := func(l, k int64) map[string]int64 {
+		return map[string]int64{"leaves": l, "steps": k, "rootlast": 0, "ops": 0}
+	}
+	lkr := func(l, k, ops int64) map[string]int64 {
+		return map[string]int64{"leaves": l, "steps": k, "rootlast": 1, "ops": ops}
+	}
+	allChecks = append(allChecks, &Check{
+		ID: "C01", Level: "model_checking",
+		Harnesses: []Harness{
+			{Name: "C01_dag", Pkg: "zzh", Func: "H_C01_dag", Reach: []string{"done"},
+				What: "solver-enumerated straight-line programs over {Scale,Add,Sub,Mul}: every operand choice (fan-out, reconvergence, x op x), every root (last node only for the longest programs), tracked/untracked leaves; all tensors' gradients vs a reverse-mode tape; each rule closure invoked a bounded number of times",
+				Items: tiered(func() []Item { return items(lk(1, 1), lk(1, 2), lk(2, 2), lkr(1, 3, 0)) },
+					func() []Item { return items(lk(1, 1), lk(1, 2), lk(2, 2), lk(1, 3), lkr(2, 3, 0), lkr(1, 4, 1)) })},
+			{Name: "C01_accum", Pkg: "zzh", Func: "H_C01_accum", Reach: []string{"done"},
+				What:  "two graphs sharing only leaves, two back-propagations: leaf gradients add up",
+				Items: tiered(func() []Item { return items(lk(1, 1), lk(2, 1), lk(1, 2)) }, func() []Item { return items(lk(1, 1), lk(2, 1), lk(1, 2), lk(2, 2)) })},
+			{Name: "C01_ladder", Pkg: "zzh", Func: "H_C01_ladder", Reach: []string{"done"},
+				What:  "ladder y <- y*y + y of depth d: total derivative, bounded rule applications (symbolic), depth-22 finishes in 10 s (native replay)",
+				Items: tiered(func() []Item { return items(map[string]int64{"depth": 2}, map[string]int64{"depth": 4}) }, func() []Item {
+					return items(map[string]int64{"depth": 2}, map[string]int64{"depth": 4}, map[string]int64{"depth": 6})
+				})},
+		},
+		Assumptions: []string{numericModel,
+			"op alphabet of the enumerated DAGs is the ring {Scale, Add, Sub, Mul}: the walk in back_propagation.go is op-agnostic, per-op rules are C02",
+			"graphs are single-use apart from shared leaves (as the property states)"},
+		Outside: "programs longer than 4 steps (ladders deeper than 6), leaf shapes other than [2]",
+	})
+}
